@@ -34,7 +34,8 @@ ASSUMPTIONS = ['a stream socket never returns more than asked, never reorders or
                'recv() returns b"" only after the peer closed; timeout 0 raises BlockingIOError when nothing is ready',
                'send() accepts between 1 and len(data) bytes when there is room',
                'oracle: independent model over the remaining stream (what happens when the whole stream arrives at once)',
-               'sizes passed to recv_size/peek/recv are >= 1; retries after Timeout / EWOULDBLOCK repeat the same call']
+               'sizes passed to recv_size/peek/recv are >= 1; retries after Timeout / EWOULDBLOCK repeat the same call',
+               'netstrings: C12 promises retry-after-Timeout for the recv_* family only, read_ns is not retry-safe in mid-frame; the simulated reader therefore sees gaps longer than its timeout only between frames']
 
 SELFTEST_MUTANT = 'recv-split-off-by-one'
 REQUIRED_PROBES = ['delimiter_straddles_recv', 'size_met_at_recv_edge', 'timeout_with_partial_data',
